@@ -14,7 +14,7 @@
 //                    FILE to DIR/p<n>.in, loads that (fresh database: nothing is ever loaded
 //                    in the parent), prints "P <n> <dump json>" and exits; the parent prints
 //                    "X <n> <status>" when the child did not exit with 0 (status < 0: signal);
-//                    a child is given $IDBRT_ALARM seconds (default 4)
+//                    a child is given $IDBRT_ALARM seconds (default 3)
 //
 #define main idbdump_main
 #include "idbdump.cxx"
@@ -101,7 +101,7 @@ int main(int argc, char **argv) {
         pid_t pid = fork();
         if (pid < 0) { perror("fork"); return 3; }
         if (pid == 0) {
-          alarm(getenv("IDBRT_ALARM") ? atoi(getenv("IDBRT_ALARM")) : 4);
+          alarm(getenv("IDBRT_ALARM") ? atoi(getenv("IDBRT_ALARM")) : 3);
           char name[64]; snprintf(name, sizeof name, "/p%d.in", n);
           string path = p[1] + name;
           { std::ofstream out(path.c_str(), std::ios::binary); out.write(data.data(), n); }
